@@ -20,8 +20,9 @@ Theorem fse_replay_full (sub : path -> tree) (before : fs) (o : op) :
   covers sub after o ->
   Permutation (replay (view_of before) (fse_contract sub before after o)) (view_of after).
 Proof.
-  intros C Hn Ho after P. unfold covers in P. rewrite replay_essential.
-  destruct o as [p i|p i|p|p|p|p|s d|s|d k i content]; cbn [target] in P; subst after;
+  intros C Hn Ho after Hc. unfold covers in Hc. rewrite replay_essential.
+  destruct o as [p i|p i|p|p|p|p|s d|s|d k i content]; cbn [target walks] in Hc;
+    try (pose proof (Hc eq_refl) as P; clear Hc); subst after;
     cbn [fse_contract pmod app filter essential].
   - cbn [apply_op]. unfold view_of. rewrite map_app. apply Permutation_refl.
   - cbn [apply_op]. unfold view_of. rewrite map_app. apply Permutation_refl.
@@ -44,7 +45,7 @@ Theorem fse_replay_full_wf :
   let after := apply_op before o in
   Permutation (map (fun x => (snd x, fst x)) (desc [] (sub (target o)))) (below after (target o)) ->
   Permutation (replay (view_of before) (fse_contract sub before after o)) (view_of after).
-Proof. intros sub before o W Hn Ho after P. apply fse_replay_full; try assumption. now apply wf_closed. Qed.
+Proof. intros sub before o W Hn Ho after P. apply fse_replay_full; try assumption; [now apply wf_closed | intros _; exact P]. Qed.
 
 (* ---------------------------------------------------------------- histories, one operation per batch *)
 (* what the emitter can ask the file system while it processes one batch, and the tree os.walk lists *)
